@@ -26,13 +26,14 @@ def main():
     prop, k = sys.argv[1], sys.argv[2]
     extra = sys.argv[3:]
     tier = os.environ.get("SEED_TIER", "quick")
-    src = "/tmp/seed_%s_out" % prop
+    rnd = os.environ.get("SEED_ROUND", "1")
+    src = ("/tmp/seed_%s_out" if rnd == "1" else "/tmp/seed" + rnd + "_%s_out") % prop
     diff, demo, meta = ("%s/m%s.diff" % (src, k), "%s/m%s_demo.py" % (src, k), "%s/m%s.json" % (src, k))
     for f in (diff, demo):
         if not os.path.exists(f):
             print("missing", f)
             return 2
-    wt = "/tmp/wt_seedc_%s_%s" % (prop, k)
+    wt = "/tmp/wt_seedc%s_%s_%s" % (rnd, prop, k)
     sh("git -C /repo worktree remove --force %s" % wt)
     r = sh("git -C /repo worktree add -q --detach %s HEAD" % wt)
     if r.returncode:
@@ -70,7 +71,7 @@ def main():
             except Exception:
                 out["agent_meta"] = open(meta).read()[:2000]
         if confirmed:
-            d = os.path.join(HOME, "seeded", "%s_m%s" % (prop, k))
+            d = os.path.join(HOME, "seeded", ("%s_m%s" if rnd == "1" else "%s_r" + rnd + "_m%s") % (prop, k))
             os.makedirs(d, exist_ok=True)
             shutil.copy(diff, os.path.join(d, "patch.diff"))
             shutil.copy(demo, os.path.join(d, "demo.py"))
